@@ -164,8 +164,8 @@ func DefaultOracle() *Oracle {
 	}
 }
 
-// Run is the state of one joint path: decisions, path condition, ghost state.
-type Run struct {
+// Path is the state of one joint path: decisions, path condition, ghost state.
+type Path struct {
 	dom     *Domain
 	dec     []bool
 	pos     int
@@ -193,7 +193,7 @@ type sentEv struct {
 type stopPath struct{}
 
 // branch decides a symbolic condition on this path.
-func (r *Run) branch(t *T) bool {
+func (r *Path) branch(t *T) bool {
 	switch {
 	case t.IsTrue():
 		return true
@@ -251,7 +251,7 @@ func (r *Run) branch(t *T) bool {
 }
 
 // Known reports the value of an atom if this path already fixed it.
-func (r *Run) Known(t *T) (bool, bool) {
+func (r *Path) Known(t *T) (bool, bool) {
 	d, ok := r.decided[t.String()]
 	return d, ok
 }
@@ -263,10 +263,10 @@ type PathOut struct {
 }
 
 // EnumeratePaths runs body once per feasible-looking decision vector.
-func EnumeratePaths(dom *Domain, maxPaths int, body func(r *Run) interface{}) (outs []PathOut, truncated bool) {
+func EnumeratePaths(dom *Domain, maxPaths int, body func(r *Path) interface{}) (outs []PathOut, truncated bool) {
 	dec := []bool{}
 	for {
-		r := &Run{dom: dom, dec: dec, decided: map[string]bool{}, oracle: DefaultOracle()}
+		r := &Path{dom: dom, dec: dec, decided: map[string]bool{}, oracle: DefaultOracle()}
 		out := body(r)
 		outs = append(outs, PathOut{PC: r.pc, Out: out})
 		dec = r.dec[:r.pos]
@@ -498,7 +498,7 @@ func (m *Machine) newObj(t types.Type) *Obj {
 
 // BuildHeap allocates the exported program. It needs a Run because building a
 // wrapped operator executes the real wrapOpEvent.
-func (m *Machine) BuildHeap(r *Run, p *XProg) (*Heap, error) {
+func (m *Machine) BuildHeap(r *Path, p *XProg) (*Heap, error) {
 	h := &Heap{prog: p}
 	nodesArr := &Obj{s: make([]Value, len(p.Nodes)), name: "nodes"}
 	exprObj := m.newObj(m.exprT)
@@ -594,7 +594,7 @@ type RunResult struct {
 func (rr *RunResult) Returned() bool { return rr.Panic == "" && !rr.Unwind && rr.Engine == "" }
 
 // Exec unrolls fn (Eval or TryEval) on program p under the current path.
-func (m *Machine) Exec(r *Run, fn *ssa.Function, p *XProg, or *Oracle) *RunResult {
+func (m *Machine) Exec(r *Path, fn *ssa.Function, p *XProg, or *Oracle) *RunResult {
 	save := r.oracle
 	if or != nil {
 		r.oracle = or
@@ -706,7 +706,7 @@ func decodeEvent(s sentEv) *EventRec {
 
 type interp struct {
 	m      *Machine
-	run    *Run
+	run    *Path
 	nNodes int
 	depth  int
 }
